@@ -25,11 +25,14 @@ TOL_BB = 1e-6          # black-box Noh: Newton to 1e-10 in the jump state (class
 TOL_SERIES = 1e-9      # BC3 vs mirrored BC4: term-by-term identical truncated series; measured <= 1.6e-12
 
 
-def tol_geneos(nip):
-    """IGEOS vs GenEOS away from the located waves (class C, resolution of the P-U tables and of the fan tables).
-    Measured worst field mismatch over the thorough lattice: 1.9e-3 at num_int_pts=501 where the star pressure lies within
-    one table step of pl or pr (first-order clamping, bound 1/(gamma*nip)), 2.6e-4 otherwise; 5.0e-4 at 2001."""
-    return 4.0 / nip
+# IGEOS vs GenEOS (class C).  The accuracy of the general-EOS route depends strongly on the problem (uniform-in-pressure
+# P-U tables: error ~ (table step / star pressure)^2 in strong rarefactions -- LeBlanc 2.5e-3, Einfeldt 1.6e-3 at 501
+# points -- and first order 1/(gamma*N) when the star pressure lies within one table step of pl or pr), so its error bar is
+# measured from the route itself: d_ref = max |GenEOS(N) - GenEOS(4N)| over the compared points (Richardson), and
+#     tol = min(A_CAP, A_FACTOR * d_ref + A_FLOOR).
+# For any convergence order >= 1 the true error of GenEOS(N) is <= 4/3 d_ref, so A_FACTOR = 10 leaves >= 7.5x margin.
+# Measured over the thorough lattice (recorded defects excluded): worst mismatch/tol = 0.21; worst mismatch 2.5e-3.
+A_FACTOR, A_FLOOR, A_CAP = 10.0, 2e-4, 2e-2
 
 
 # ---------------------------------------------------------------------------------------------------------------
@@ -49,7 +52,7 @@ class Ctx:
         self.res["evals"] += 1
         return call(s, x, t)
 
-    def compare(self, pair, cfg, where, A, B, fields, tol, scales=None, mask=None, detail=None, floor=1e-3, key=None, cal=True):
+    def compare(self, pair, cfg, where, A, B, fields, tol, scales=None, mask=None, detail=None, floor=1e-3, key=None, cal=True, calkey=None):
         """Field-by-field |a-b| <= tol*(max(|a|,|b|) + floor*S_field) at every point (S_field = max|field| over both
         profiles unless given).  A, B map field name -> array (or record arrays)."""
         nontrivial = False
@@ -70,12 +73,12 @@ class Ctx:
                 nontrivial = True
             i = int(np.argmax(m))
             if cal:
-                w = self.worst.setdefault(pair.split(":")[0], 0.0)
-                self.worst[pair.split(":")[0]] = max(w, float(m[i]))
+                ck = calkey or pair.split(":")[0]
+                self.worst[ck] = max(self.worst.get(ck, 0.0), float(m[i]))
             if m[i] > tol:
                 d = {"index": i, "a": float(a[i]), "b": float(b[i]), "n_bad": int((m > tol).sum()), "n_points": int(a.size)}
                 d.update(detail or {})
-                self.res["violations"].append({"solver": pair, "cfg": cfg, "clause": "agree:" + f, "where": where,
+                self.res["violations"].append({"solver": pair.split(":weak")[0], "cfg": cfg, "clause": "agree:" + f, "where": where,
                                                "value": float(m[i]), "tol": float(tol), "detail": d})
         self.count("comparisons")
         self.count("pair:" + pair.split(":")[0])
@@ -118,7 +121,7 @@ def tasks_a(tier):
     k = 1 if tier == "quick" else 2
     for nm in hm.RIEMANN_TABLE:
         for mirror in (False, True):
-            out.append({"route": "a", "table": nm, "mirror": mirror, "refine": True})
+            out.append({"route": "a", "table": nm, "mirror": mirror})
     for root in ROOTS:
         al = root_alphabet(root)
         for dev in lattice.enumerate_checked(al, k):
@@ -126,9 +129,7 @@ def tasks_a(tier):
             if key in seen:
                 continue
             seen.add(key)
-            # the resolution refinement (num_int_pts x4) is run on the roots and single deviations in the thorough tier,
-            # on the roots only in the quick tier
-            out.append({"route": "a", "root": root, "dev": dev, "refine": (len(dev) == 0) or (tier != "quick" and len(dev) <= 1)})
+            out.append({"route": "a", "root": root, "dev": dev})
     return out
 
 
@@ -143,7 +144,7 @@ def run_a(task, ctx):
     try:
         sI = construct(PATHS["IGEOS"], c)
         sG = construct(PATHS["GenEOS"], cG)
-        sG2 = construct(PATHS["GenEOS"], dict(c, num_int_pts=A_RES["fine"][0], num_x_pts=A_RES["fine"][1])) if task.get("refine") else None
+        sG2 = construct(PATHS["GenEOS"], dict(c, num_int_pts=A_RES["fine"][0], num_x_pts=A_RES["fine"][1]))
     except Inadmissible:
         ctx.count("inadmissible_vectors")
         return
@@ -185,6 +186,7 @@ def run_a(task, ctx):
             h = float(np.max(np.diff(np.asarray(sG.x, float))))
             patG = pattern_of(sG)
             VI, VG = np.asarray(sI.Vregs, float), np.asarray(sG.Vregs, float)
+            solG2 = ctx.call(sG2, X, t)
         except Exception as ex:
             ctx.count("call_exception:GenEOS:%s" % type(ex).__name__)
             ctx.dg.add("excG", type(ex).__name__)
@@ -195,46 +197,58 @@ def run_a(task, ctx):
         mask = np.ones(len(X), bool)
         for xj in jumps:
             mask &= np.abs(X - xj) > 3.0 * h
+        if not mask.any():
+            continue
         vs = max(vel_scale(solI), vel_scale(solG))
-        scales = {"velocity": vs}
-        tol = tol_geneos(cG["num_int_pts"])
-        before = len(ctx.res["violations"])
-        ctx.compare(pair, c, where, solI, solG, FIELDS, tol, scales=scales, mask=mask, floor=1.0,
-                    detail={"h": h, "excluded_points": int((~mask).sum())}, cal=(W["lr"] == "distinct" and not (patI == "SCR" and W["du"] == "du!=0")))
-        agree_fields = len(ctx.res["violations"]) == before
-        # wave pattern and wave speeds as the two solvers report them (public attributes); skipped when the star pressure
-        # is within two table steps of pl or pr, where a zero-strength wave may legitimately be labelled either way
-        pstar = float(np.asarray(solI["pressure"], float)[np.argmin(np.abs(X - (jumps[len(jumps) // 2] if jumps else c["xd0"])))])
-        weak = min(abs(pstar - c["pl"]) / c["pl"], abs(pstar - c["pr"]) / c["pr"]) < 2.0 / cG["num_int_pts"]
+        recorded = (W["lr"] != "distinct") or (patI == "SCR" and W["du"] == "du!=0")
+        dmax = 0.0
+        for f in FIELDS:
+            S = vs if f == "velocity" else None
+
+            def mm(P, Q):
+                return float(oracle.mismatch(np.asarray(P[f], float)[mask], np.asarray(Q[f], float)[mask], scale=S, floor=1.0).max())
+            d_ref, d1, d2 = mm(solG, solG2), mm(solI, solG), mm(solI, solG2)
+            tol = min(A_CAP, A_FACTOR * d_ref + A_FLOOR)
+            ctx.dg.add(d_ref, d1, d2)
+            dmax = max(dmax, d1)
+            ctx.compare(pair, c, where, solI, solG, [f], tol, scales={"velocity": vs}, mask=mask, floor=1.0,
+                        detail={"h": h, "excluded_points": int((~mask).sum()), "geneos_self_difference_N_vs_4N": d_ref}, cal=False)
+            if not recorded:
+                ctx.worst["IGEOS~GenEOS"] = max(ctx.worst.get("IGEOS~GenEOS", 0.0), d1)
+                ctx.worst["IGEOS~GenEOS:mismatch/tol"] = max(ctx.worst.get("IGEOS~GenEOS:mismatch/tol", 0.0), d1 / tol)
+                ctx.worst["IGEOS~GenEOS:fine/coarse"] = max(ctx.worst.get("IGEOS~GenEOS:fine/coarse", 0.0), d2 / max(d1, A_FLOOR))
+            # convergence, not mere closeness: with 4x the table and grid points the difference to IGEOS must shrink
+            # (measured: d2/max(d1, floor) <= 0.27 over the thorough lattice)
+            if d1 <= tol and d2 > max(0.5 * d1, A_FLOOR):
+                ctx.violation(pair, c, "agree:convergence:" + f, where, d2, max(0.5 * d1, A_FLOOR), {"diff_N": d1, "diff_4N": d2})
+        ctx.count("a:refinements")
+        # wave pattern and wave speeds as the two solvers report them (public attributes); a wave is "weak" when the star
+        # state read off IGEOS's fields is within two table steps of the left or right pressure: a zero-strength wave may
+        # legitimately be labelled shock or rarefaction
+        pI = np.asarray(solI["pressure"], float)
+        uI = np.asarray(solI["velocity"], float)
+        inside = (X > W["disturbed"][0]) & (X < W["disturbed"][1])
+        star = inside & (np.abs(pI - c["pl"]) > 2.0 / cG["num_int_pts"] * c["pl"]) & (np.abs(pI - c["pr"]) > 2.0 / cG["num_int_pts"] * c["pr"])
+        # the star region is where p and u are constant: look at IGEOS's pressure next to the located contact / between waves
+        flat = np.zeros(len(X), bool)
+        flat[1:-1] = (np.abs(pI[2:] - pI[:-2]) <= 1e-10 * np.abs(pI[1:-1])) & (np.abs(uI[2:] - uI[:-2]) <= 1e-10 * vs)
+        weak = not (star & flat).any()
         if weak:
             ctx.count("a:pattern_compare_skipped_zero_strength_wave")
         else:
+            tolv = min(A_CAP, A_FACTOR * dmax + A_FLOOR)
             if patI != patG:
                 ctx.violation(pair, c, "agree:wave-pattern", where, 1.0, 0.0, {"IGEOS": patI, "GenEOS": patG})
             elif len(VI) == len(VG):
                 m = np.abs(VI - VG) / (np.maximum(np.abs(VI), np.abs(VG)) + vs)
                 ctx.dg.add(VI, VG)
-                if m.max() > tol:
-                    ctx.violation(pair, c, "agree:wave-speeds", where, float(m.max()), tol, {"IGEOS": VI.tolist(), "GenEOS": VG.tolist()})
+                if not recorded:
+                    ctx.worst["IGEOS~GenEOS:wave-speeds"] = max(ctx.worst.get("IGEOS~GenEOS:wave-speeds", 0.0), float(m.max()))
+                    ctx.worst["IGEOS~GenEOS:wave-speeds/tol"] = max(ctx.worst.get("IGEOS~GenEOS:wave-speeds/tol", 0.0), float(m.max()) / tolv)
+                if m.max() > tolv:
+                    ctx.violation(pair, c, "agree:wave-speeds", where, float(m.max()), tolv, {"IGEOS": VI.tolist(), "GenEOS": VG.tolist()})
             else:
-                ctx.violation(pair, c, "agree:wave-speeds", where, 1.0, tol, {"IGEOS": VI.tolist(), "GenEOS": VG.tolist()})
-        # refinement: the difference to IGEOS must shrink (num_int_pts x4, num_x_pts x4) -- convergence, not mere closeness
-        if sG2 is not None and agree_fields:
-            try:
-                solG2 = ctx.call(sG2, X, t)
-            except Exception as ex:
-                ctx.count("call_exception:GenEOS:%s" % type(ex).__name__)
-                continue
-            d1 = max(float(oracle.mismatch(np.asarray(solI[f], float)[mask], np.asarray(solG[f], float)[mask],
-                                           scale=(vs if f == "velocity" else None), floor=1.0).max()) for f in FIELDS) if mask.any() else 0.0
-            d2 = max(float(oracle.mismatch(np.asarray(solI[f], float)[mask], np.asarray(solG2[f], float)[mask],
-                                           scale=(vs if f == "velocity" else None), floor=1.0).max()) for f in FIELDS) if mask.any() else 0.0
-            ctx.dg.add(d1, d2)
-            ctx.count("a:refinements")
-            ctx.res.setdefault("_conv", []).append([d1, d2])
-            # measured: d2/d1 between 0.02 and 0.3 wherever d1 > 2e-5; below that both are at the x-grid interpolation floor
-            if d2 > max(0.5 * d1, 2e-5):
-                ctx.violation(pair, c, "agree:convergence", where, d2, max(0.5 * d1, 2e-5), {"diff_coarse": d1, "diff_fine": d2})
+                ctx.violation(pair, c, "agree:wave-speeds", where, 1.0, tolv, {"IGEOS": VI.tolist(), "GenEOS": VG.tolist()})
 
 
 # ---------------------------------------------------------------------------------------------------------------
